@@ -19,6 +19,13 @@ for pid, c in sorted(src['checks'].items()):
         "level_note": c["note"],
         "technique": c.get("technique", "contract-based deductive verification: VCs generated from go/ssa of the real functions under //@ contracts, discharged by z3/cvc5"),
     })
+for pid, c in src['checks'].items():
+    pf = f'/verif/props/{pid}.json'
+    if os.path.exists(pf):
+        pd = json.load(open(pf))
+        pd['explanation'] = c['text'] + ' -- Assumed/trusted: ' + c['note']
+        pd['level'] = c.get('category', 'proof')
+        json.dump(pd, open(pf, 'w'), indent=1)
 claimed = {c["property_id"] for c in checks}
 na = [{"property_id": k, "reason": v} for k, v in sorted(src['not_applicable'].items()) if k not in claimed]
 m = {
